@@ -1,4 +1,1471 @@
+//! C20 — "Verifier arithmetic gadgets equal their native counterparts".
+//!
+//! Technique: exhaustive enumeration of each gadget's (small, explicitly bounded) parameter
+//! domain. For every case a tiny circuit is built around the REAL gadget of `/repo`, executed
+//! by the real runner, and the value of the gadget's output target (read from the witness
+//! table through `circuit.expr_to_widx`) is compared with the value the native Plonky3 crates
+//! compute for the same quantity.
+//!
+//! * alphabet  : gadget × structural parameters (domain size, shift, #chunks, ZK, period,
+//!               length, exponent, height set, consumed bits) × point / index alphabet ×
+//!               input mode (inputs allocated as public inputs | as circuit constants — the
+//!               latter drives the builder's constant short-cuts) × field
+//! * bound     : see `Bounds::for_tier`
+//! * oracle    : value equality with the native p3 function (`PolynomialSpace::*`,
+//!               `p3_uni_stark::recompose_quotient_from_chunks`, `exp_u64`, `horner`, the
+//!               index→point formulas of `p3_fri::verifier`). A build/run error on an input
+//!               for which the native function is defined is a violation as well. Inputs on
+//!               which the native function itself panics (division by zero on a domain
+//!               point, `0⁻¹` inside barycentric interpolation) are outside the contract and
+//!               skipped (counted).
+//!
+//! No sampling: every loop below walks a finite list completely; `VERIF_SEED` only rotates the
+//! concrete "generic" field elements used as points / coefficients.
+//!
+//! Verdict keys: violating cases are grouped by `gadget:clause[:output]`; the key is the group
+//! plus its lowest-rank (smallest field / shape / input) case. One class is a known finding of
+//! the unchanged tree and keyed by the class alone: `quotient_zeta_on_chunk_domain.*` (zeta on
+//! a quotient chunk domain makes the gadget divide by zero while the native function is
+//! defined). A gadget whose build blows up memory on a valid input is reported by the
+//! watchdog in `main` as `resource_blowup`.
+
+mod pcs;
+
+use std::collections::{BTreeMap, HashSet};
+use std::hash::{Hash, Hasher};
+use std::sync::Mutex;
+use std::sync::atomic::{AtomicBool, AtomicU64, Ordering};
+
+use p3_circuit::{Circuit, CircuitBuilder, ExprId};
+use p3_commit::PolynomialSpace;
+use p3_field::{
+    BasedVectorSpace, ExtensionField, Field, HornerIter, PrimeCharacteristicRing, PrimeField64,
+    TwoAdicField,
+};
+use p3_recursion::pcs::fri::verifier_verif_hooks as hooks;
+use p3_recursion::verifier::verif_evaluate_periodic_columns_circuit;
+use p3_util::reverse_bits_len;
+use pcs::{Coset, PcsGadgets};
+use vpcore::rayon::prelude::*;
+use vpcore::serde_json::{Value, json};
+use vpcore::{Ctx, Histo, Report, finish, quiet_catch};
+
+// ---------------------------------------------------------------------------------------
+// bounds
+
+#[derive(Clone, Debug, serde::Serialize)]
+struct Bounds {
+    /// number of generic extension elements in the point alphabet
+    n_ext: usize,
+    /// selectors / vanishing: domain log sizes 0..=max
+    sel_max_log: usize,
+    /// quotient: (min,max) degree bits, max log #chunks (before ZK doubling)
+    quo_deg_bits: (usize, usize),
+    quo_max_log_chunks: usize,
+    /// periodic: trace domain log sizes 0..=max
+    per_max_log: usize,
+    /// evaluate_polynomial lengths 1..=max
+    poly_max_len: usize,
+    /// circuit_exp_by_constant: dense exponents 1..=max, then 2^k, 2^k±1 for k<=max_k
+    exp_dense: usize,
+    exp_max_k: usize,
+    /// final query point: log heights 1..=max (bits public), 1..=max_const (bits constants)
+    fqp_max_log: usize,
+    fqp_max_log_const: usize,
+    /// evaluation points: log global max heights 1..=max, all non-empty height subsets
+    evp_max_log: usize,
+    evp_max_log_const: usize,
+    /// builder primitives
+    pow2_max: usize,
+    bits_exhaustive: usize,
+}
+
+impl Bounds {
+    fn for_tier(quick: bool) -> Bounds {
+        if quick {
+            Bounds {
+                n_ext: 4,
+                sel_max_log: 24,
+                quo_deg_bits: (0, 12),
+                quo_max_log_chunks: 4,
+                per_max_log: 8,
+                poly_max_len: 32,
+                exp_dense: 2000,
+                exp_max_k: 62,
+                fqp_max_log: 11,
+                fqp_max_log_const: 8,
+                evp_max_log: 8,
+                evp_max_log_const: 6,
+                pow2_max: 32,
+                bits_exhaustive: 11,
+            }
+        } else {
+            Bounds {
+                n_ext: 6,
+                sel_max_log: 32,
+                quo_deg_bits: (0, 16),
+                quo_max_log_chunks: 5,
+                per_max_log: 10,
+                poly_max_len: 128,
+                exp_dense: 20000,
+                exp_max_k: 62,
+                fqp_max_log: 14,
+                fqp_max_log_const: 10,
+                evp_max_log: 10,
+                evp_max_log_const: 7,
+                pow2_max: 64,
+                bits_exhaustive: 14,
+            }
+        }
+    }
+}
+
+// ---------------------------------------------------------------------------------------
+// engine
+
+#[derive(Clone, Copy, PartialEq, Eq, Debug)]
+enum Mode {
+    /// gadget inputs are public inputs of the circuit (one build, one run per input vector)
+    Pub,
+    /// gadget inputs are circuit constants (one build per input vector)
+    Const,
+}
+impl Mode {
+    fn tag(&self) -> &'static str {
+        match self {
+            Mode::Pub => "pub",
+            Mode::Const => "const",
+        }
+    }
+}
+
+#[derive(Clone, Debug, PartialEq, Eq, serde::Serialize, serde::Deserialize)]
+struct CaseId {
+    field: String,
+    gadget: String,
+    /// structural parameters
+    shape: String,
+    /// name of the input vector (point / index)
+    input: String,
+    mode: String,
+}
+impl CaseId {
+    fn show(&self) -> String {
+        format!(
+            "{}:{}[{}]@{}/{}",
+            self.field, self.gadget, self.shape, self.input, self.mode
+        )
+    }
+}
+
+struct Pending {
+    rank: u64,
+    case: CaseId,
+    what: String,
+    detail: Value,
+    count: u64,
+}
+
+#[derive(Default, Clone, Copy)]
+struct GStat {
+    cases: u64,
+    builds: u64,
+    runs: u64,
+    outputs_compared: u64,
+    native_undefined: u64,
+    nontrivial_outputs: u64,
+}
+
+struct Eng<'a> {
+    ctx: &'a Ctx,
+    bounds: Bounds,
+    filter: Option<CaseId>,
+    /// violating cases grouped by `gadget:clause:output`; the lowest-rank case is kept as the
+    /// canonical minimal form (ranks grow with field, structural size, input index)
+    viol: Mutex<BTreeMap<String, Pending>>,
+    /// hashes of (gadget, output value) for compared outputs whose value is not 0/1
+    distinct: Mutex<HashSet<u64>>,
+    gstats: Mutex<BTreeMap<String, GStat>>,
+    histo: Histo,
+    samples: Mutex<BTreeMap<String, Value>>,
+    timed_out: AtomicBool,
+    skipped_sweeps: AtomicU64,
+    /// sweeps currently executing (named by the watchdog when a gadget runs away)
+    in_flight: Mutex<std::collections::BTreeSet<String>>,
+}
+
+fn coeffs<F: PrimeField64, EF: BasedVectorSpace<F>>(v: &EF) -> Vec<u64> {
+    v.as_basis_coefficients_slice()
+        .iter()
+        .map(|c| c.as_canonical_u64())
+        .collect()
+}
+
+struct Built<EF> {
+    circuit: Circuit<EF>,
+    outs: Vec<ExprId>,
+}
+
+type BuildFn<'f, EF> =
+    dyn Fn(&mut CircuitBuilder<EF>, &[ExprId]) -> Result<Vec<ExprId>, String> + 'f;
+
+fn build_circuit<EF: Field + Hash + Eq>(
+    mode: Mode,
+    n_in: usize,
+    vals: &[EF],
+    f: &BuildFn<'_, EF>,
+) -> Result<Built<EF>, String> {
+    quiet_catch(|| {
+        let mut cb = CircuitBuilder::<EF>::new();
+        let ins: Vec<ExprId> = match mode {
+            Mode::Pub => (0..n_in).map(|_| cb.public_input()).collect(),
+            Mode::Const => vals.iter().map(|v| cb.define_const(*v)).collect(),
+        };
+        let outs = f(&mut cb, &ins)?;
+        let circuit = cb.build().map_err(|e| format!("build error: {e:?}"))?;
+        Ok(Built { circuit, outs })
+    })
+    .unwrap_or_else(|p| Err(format!("panic while building: {p}")))
+}
+
+fn run_circuit<EF: Field>(b: &Built<EF>, pubs: &[EF]) -> Result<Vec<Option<EF>>, String> {
+    quiet_catch(|| {
+        let mut r = b.circuit.runner();
+        r.set_public_inputs(pubs)
+            .map_err(|e| format!("set_public_inputs: {e:?}"))?;
+        let tr = r.run().map_err(|e| format!("run error: {e:?}"))?;
+        Ok(b.outs
+            .iter()
+            .map(|e| {
+                b.circuit
+                    .expr_to_widx
+                    .get(e)
+                    .and_then(|w| tr.witness_trace.get_value(*w).copied())
+            })
+            .collect())
+    })
+    .unwrap_or_else(|p| Err(format!("panic while running: {p}")))
+}
+
+/// Second observation channel for an output target that has no witness slot of its own:
+/// rebuild the circuit with `connect(out, const expected)`; the run succeeds iff equal.
+fn assert_mode_matches<EF: Field + Hash + Eq>(
+    mode: Mode,
+    n_in: usize,
+    vals: &[EF],
+    f: &BuildFn<'_, EF>,
+    out_idx: usize,
+    expected: EF,
+) -> Result<(), String> {
+    let g = |cb: &mut CircuitBuilder<EF>, ins: &[ExprId]| -> Result<Vec<ExprId>, String> {
+        let outs = f(cb, ins)?;
+        let c = cb.define_const(expected);
+        cb.connect(outs[out_idx], c);
+        Ok(outs)
+    };
+    let b = build_circuit(mode, n_in, vals, &g)?;
+    let pubs: &[EF] = if mode == Mode::Pub { vals } else { &[] };
+    run_circuit(&b, pubs).map(|_| ())
+}
+
+impl<'a> Eng<'a> {
+    fn new(ctx: &'a Ctx, bounds: Bounds, filter: Option<CaseId>) -> Self {
+        Eng {
+            ctx,
+            bounds,
+            filter,
+            viol: Mutex::new(BTreeMap::new()),
+            distinct: Mutex::new(HashSet::new()),
+            gstats: Mutex::new(BTreeMap::new()),
+            histo: Histo::new(),
+            samples: Mutex::new(BTreeMap::new()),
+            timed_out: AtomicBool::new(false),
+            skipped_sweeps: AtomicU64::new(0),
+            in_flight: Mutex::new(Default::default()),
+        }
+    }
+
+    fn violation(&self, group: String, rank: u64, case: CaseId, what: String, detail: Value) {
+        let mut g = self.viol.lock().unwrap();
+        match g.get_mut(&group) {
+            Some(p) => {
+                p.count += 1;
+                if rank < p.rank {
+                    p.rank = rank;
+                    p.case = case;
+                    p.what = what;
+                    p.detail = detail;
+                }
+            }
+            None => {
+                g.insert(
+                    group,
+                    Pending {
+                        rank,
+                        case,
+                        what,
+                        detail,
+                        count: 1,
+                    },
+                );
+            }
+        }
+    }
+
+    /// Judge all input vectors of one structural shape of one gadget, in both input modes.
+    ///
+    /// * `inputs`: named input vectors, all of length `n_in`
+    /// * `build`: places the gadget on the given input targets, returns its output targets
+    /// * `native`: the native values of those outputs (may panic = undefined on that input)
+    #[allow(clippy::too_many_arguments)]
+    fn sweep<F, EF>(
+        &self,
+        field: &str,
+        field_rank: u64,
+        gadget: &str,
+        shape: &str,
+        shape_rank: u64,
+        n_in: usize,
+        inputs: &[(String, Vec<EF>)],
+        out_names: &[String],
+        modes: &[Mode],
+        build: &BuildFn<'_, EF>,
+        native: &dyn Fn(&[EF]) -> Vec<EF>,
+    ) where
+        F: PrimeField64,
+        EF: ExtensionField<F> + Hash + Eq,
+    {
+        if let Some(f) = &self.filter
+            && (f.field != field || f.gadget != gadget || f.shape != shape)
+        {
+            return;
+        }
+        if self.ctx.used() > 0.93 {
+            self.timed_out.store(true, Ordering::Relaxed);
+            self.skipped_sweeps.fetch_add(1, Ordering::Relaxed);
+            return;
+        }
+        let flight = format!("{field}:{gadget}[{shape}]");
+        self.in_flight.lock().unwrap().insert(flight.clone());
+        let mut st = GStat::default();
+        let mut new_distinct: Vec<u64> = vec![];
+        for &mode in modes {
+            let shared = if mode == Mode::Pub {
+                st.builds += 1;
+                Some(build_circuit(mode, n_in, &[], build))
+            } else {
+                None
+            };
+            for (ii, (iname, vals)) in inputs.iter().enumerate() {
+                assert_eq!(vals.len(), n_in);
+                let case = CaseId {
+                    field: field.into(),
+                    gadget: gadget.into(),
+                    shape: shape.into(),
+                    input: iname.clone(),
+                    mode: mode.tag().into(),
+                };
+                if let Some(f) = &self.filter
+                    && *f != case
+                {
+                    continue;
+                }
+                st.cases += 1;
+                let rank = (field_rank << 48)
+                    + (shape_rank << 24)
+                    + ((ii as u64) << 1)
+                    + (mode == Mode::Const) as u64;
+                let nat = quiet_catch(|| native(vals));
+                // circuit side
+                let own;
+                let built: &Result<Built<EF>, String> = match &shared {
+                    Some(b) => b,
+                    None => {
+                        st.builds += 1;
+                        own = build_circuit(mode, n_in, vals, build);
+                        &own
+                    }
+                };
+                let pubs: &[EF] = if mode == Mode::Pub { vals } else { &[] };
+                let got = match built {
+                    Ok(b) => {
+                        st.runs += 1;
+                        run_circuit(b, pubs)
+                    }
+                    Err(e) => Err(e.clone()),
+                };
+                let inputs_json = || -> Value {
+                    json!(vals.iter().map(|v| coeffs::<F, EF>(v)).collect::<Vec<_>>())
+                };
+                let nat = match nat {
+                    Ok(n) => n,
+                    Err(p) => {
+                        st.native_undefined += 1;
+                        self.histo.add(&format!(
+                            "{gadget}: native undefined (panics) / circuit {}",
+                            if got.is_ok() { "runs" } else { "fails" }
+                        ));
+                        if self.filter.is_some() {
+                            println!("  native undefined: {p}; circuit: {got:?}");
+                        }
+                        continue;
+                    }
+                };
+                assert_eq!(nat.len(), out_names.len(), "native arity of {gadget}");
+                match got {
+                    Err(e) => {
+                        if self.filter.is_some() {
+                            println!("  {}: circuit fails: {e}", case.show());
+                        }
+                        self.histo.add(&format!("{gadget}: circuit fails on a native-defined input"));
+                        let clause = if e.starts_with("run error") || e.starts_with("panic while running") {
+                            "run_error"
+                        } else {
+                            "build_error"
+                        };
+                        self.violation(
+                            format!("{gadget}:{clause}"),
+                            rank,
+                            case.clone(),
+                            format!(
+                                "{}: native value defined ({:?}…) but the circuit fails: {e}",
+                                case.show(),
+                                coeffs::<F, EF>(&nat[0])
+                            ),
+                            json!({"case": case, "inputs": inputs_json(), "error": e,
+                                   "native": nat.iter().map(|v| coeffs::<F,EF>(v)).collect::<Vec<_>>()}),
+                        );
+                    }
+                    Ok(vals_got) => {
+                        if vals_got.len() != nat.len() {
+                            self.violation(
+                                format!("{gadget}:arity"),
+                                rank,
+                                case.clone(),
+                                format!("{}: gadget returned {} outputs, expected {}", case.show(), vals_got.len(), nat.len()),
+                                json!({"case": case}),
+                            );
+                            continue;
+                        }
+                        let mut all_ok = true;
+                        for (oi, (g, want)) in vals_got.iter().zip(nat.iter()).enumerate() {
+                            st.outputs_compared += 1;
+                            let ok = match g {
+                                Some(v) => v == want,
+                                None => {
+                                    // output target without a witness slot: observe through connect
+                                    self.histo.add(&format!("{gadget}: output observed through connect"));
+                                    st.builds += 1;
+                                    st.runs += 1;
+                                    assert_mode_matches(mode, n_in, vals, build, oi, *want).is_ok()
+                                }
+                            };
+                            if ok {
+                                if !want.is_zero() && !want.is_one() {
+                                    st.nontrivial_outputs += 1;
+                                    let mut h = std::collections::hash_map::DefaultHasher::new();
+                                    gadget.hash(&mut h);
+                                    coeffs::<F, EF>(want).hash(&mut h);
+                                    new_distinct.push(h.finish());
+                                }
+                            } else {
+                                all_ok = false;
+                                self.violation(
+                                    format!("{gadget}:value:{}", out_names[oi]),
+                                    rank,
+                                    case.clone(),
+                                    format!(
+                                        "{}: output `{}` is {:?} in the circuit, native value {:?}",
+                                        case.show(),
+                                        out_names[oi],
+                                        g.as_ref().map(|v| coeffs::<F, EF>(v)),
+                                        coeffs::<F, EF>(want)
+                                    ),
+                                    json!({"case": case, "inputs": inputs_json(), "output": out_names[oi],
+                                           "circuit": g.as_ref().map(|v| coeffs::<F,EF>(v)), "native": coeffs::<F,EF>(want)}),
+                                );
+                            }
+                        }
+                        self.histo.add(&format!(
+                            "{gadget}: {}",
+                            if all_ok { "equal" } else { "MISMATCH" }
+                        ));
+                        if self.filter.is_some() {
+                            println!(
+                                "  {}: circuit {:?}\n    native {:?}  -> {}",
+                                case.show(),
+                                vals_got.iter().map(|g| g.as_ref().map(|v| coeffs::<F, EF>(v))).collect::<Vec<_>>(),
+                                nat.iter().map(|v| coeffs::<F, EF>(v)).collect::<Vec<_>>(),
+                                if all_ok { "equal" } else { "MISMATCH" }
+                            );
+                        }
+                        // one written-out sample per gadget: the first non-trivial case judged equal
+                        if all_ok && nat.iter().any(|v| !v.is_zero() && !v.is_one()) {
+                            let mut s = self.samples.lock().unwrap();
+                            if !s.contains_key(gadget) {
+                                s.insert(
+                                    gadget.to_string(),
+                                    json!({"case": case.show(), "inputs": inputs_json(), "outputs": out_names,
+                                           "value": nat.iter().map(|v| coeffs::<F,EF>(v)).collect::<Vec<_>>()}),
+                                );
+                            }
+                        }
+                    }
+                }
+            }
+        }
+        {
+            let mut d = self.distinct.lock().unwrap();
+            d.extend(new_distinct);
+        }
+        self.in_flight.lock().unwrap().remove(&flight);
+        let mut gs = self.gstats.lock().unwrap();
+        let e = gs.entry(format!("{field}/{gadget}")).or_default();
+        e.cases += st.cases;
+        e.builds += st.builds;
+        e.runs += st.runs;
+        e.outputs_compared += st.outputs_compared;
+        e.native_undefined += st.native_undefined;
+        e.nontrivial_outputs += st.nontrivial_outputs;
+    }
+}
+
+const BOTH: [Mode; 2] = [Mode::Pub, Mode::Const];
+
+// ---------------------------------------------------------------------------------------
+// value alphabet
+
+/// three fixed "generic" extension elements (all basis coordinates non-zero); the seed only
+/// rotates which concrete elements are used
+fn ext_elems<F: PrimeField64, EF: ExtensionField<F>>(seed: u64, n: usize, salt: u64) -> Vec<EF> {
+    (0..n as u64)
+        .map(|i| {
+            EF::from_basis_coefficients_fn(|j| {
+                F::from_u64(
+                    1_000_003 * (i + 1) + 7_919 * (j as u64 + 1) + 104_729 * (seed % 1000) + 31 * salt,
+                )
+            })
+        })
+        .collect()
+}
+
+fn base_points<F: PrimeField64, EF: ExtensionField<F>>(seed: u64, n_ext: usize) -> Vec<(String, EF)> {
+    let mut v: Vec<(String, EF)> = ext_elems::<F, EF>(seed, n_ext, 0)
+        .into_iter()
+        .enumerate()
+        .map(|(i, e)| (format!("e{i}"), e))
+        .collect();
+    v.push(("zero".into(), EF::ZERO));
+    v.push(("one".into(), EF::ONE));
+    // 11 is no field generator of the three fields (31, 3, 7), hence on none of the cosets used
+    v.push(("b11".into(), EF::from(F::from_u64(11))));
+    v
+}
+
+fn domain_points<F: TwoAdicField + PrimeField64, EF: ExtensionField<F>>(
+    seed: u64,
+    n_ext: usize,
+    dom: &Coset<F>,
+) -> Vec<(String, Vec<EF>)> {
+    let mut v = base_points::<F, EF>(seed, n_ext);
+    let h = dom.subgroup_generator();
+    v.push(("dom_first".into(), EF::from(dom.shift())));
+    v.push(("dom_next".into(), EF::from(dom.shift() * h)));
+    v.push(("dom_last".into(), EF::from(dom.shift() * h.inverse())));
+    v.into_iter().map(|(n, p)| (n, vec![p])).collect()
+}
+
+fn shifts<F: TwoAdicField>(log: usize) -> Vec<(&'static str, F)> {
+    vec![
+        ("1", F::ONE),
+        ("g", F::GENERATOR),
+        // shift of the second chunk of a split quotient domain: g·ω with ω of order 2^(log+1)
+        ("g*w", F::GENERATOR * F::two_adic_generator((log + 1).min(F::TWO_ADICITY))),
+    ]
+}
+
+// ---------------------------------------------------------------------------------------
+// gadget sweeps
+
+struct FieldCtx<'a, 'b> {
+    eng: &'a Eng<'b>,
+    name: &'static str,
+    rank: u64,
+    n_ext: usize,
+}
+
+/// Lagrange selectors + vanishing polynomial at a point, for one `RecursivePcs` implementation.
+fn g_selectors<G: PcsGadgets>(fc: &FieldCtx, g: &G) {
+    let eng = fc.eng;
+    let seed = eng.ctx.seed;
+    for log in 0..=eng.bounds.sel_max_log.min(G::F::TWO_ADICITY) {
+        for (sname, shift) in shifts::<G::F>(log) {
+            let dom = Coset::<G::F>::new(shift, log).expect("log size below two-adicity");
+            let pts = domain_points::<G::F, G::EF>(seed, fc.n_ext, &dom);
+            let shape = format!("log_size={log},shift={sname}");
+            let srank = (log as u64) * 4 + ["1", "g", "g*w"].iter().position(|s| *s == sname).unwrap() as u64;
+            // RecursivePcs metadata used by the gadgets
+            if g.rec_log_size(&dom) != log || g.rec_first_point(&dom) != G::EF::from(dom.first_point()) {
+                eng.violation(
+                    format!("domain_metadata.{}", G::KIND),
+                    srank,
+                    CaseId { field: fc.name.into(), gadget: format!("domain_metadata.{}", G::KIND), shape: shape.clone(), input: "-".into(), mode: "-".into() },
+                    format!("RecursivePcs::log_size/first_point differ from the native domain for {shape}"),
+                    json!({}),
+                );
+            }
+            eng.sweep::<G::F, G::EF>(
+                fc.name,
+                fc.rank,
+                &format!("selectors.{}", G::KIND),
+                &shape,
+                srank,
+                1,
+                &pts,
+                &["is_first_row".into(), "is_last_row".into(), "is_transition".into(), "inv_vanishing".into()],
+                &BOTH,
+                &|cb, ins| Ok(g.selectors(cb, &dom, ins[0]).to_vec()),
+                &|v| {
+                    let s = dom.selectors_at_point(v[0]);
+                    vec![s.is_first_row, s.is_last_row, s.is_transition, s.inv_vanishing]
+                },
+            );
+            eng.sweep::<G::F, G::EF>(
+                fc.name,
+                fc.rank,
+                &format!("vanishing.{}", G::KIND),
+                &shape,
+                srank,
+                1,
+                &pts,
+                &["z_h".into()],
+                &BOTH,
+                &|cb, ins| Ok(vec![g.vanishing(cb, &dom, ins[0])]),
+                &|v| vec![dom.vanishing_poly_at_point(v[0])],
+            );
+        }
+    }
+}
+
+/// Quotient recomposition from chunks. Domains are derived exactly like the verifiers do:
+/// native side as in `p3_uni_stark::verify`, circuit side as in `recursion/src/verifier/stark.rs`
+/// (through the `RecursivePcs` methods); with ZK the number of chunks doubles.
+fn g_quotient<G: PcsGadgets>(fc: &FieldCtx, g: &G) {
+    let eng = fc.eng;
+    let seed = eng.ctx.seed;
+    let is_zk = g.is_zk();
+    let d = <G::EF as BasedVectorSpace<G::F>>::DIMENSION;
+    let (dmin, dmax) = eng.bounds.quo_deg_bits;
+    for degree_bits in dmin..=dmax {
+        if degree_bits < is_zk {
+            continue; // rejected by validate_degree_bits
+        }
+        for log_chunks in 0..=eng.bounds.quo_max_log_chunks {
+            let n_chunks = 1usize << (log_chunks + is_zk);
+            // native derivation (p3_uni_stark::verify)
+            let trace_domain = g.native_natural_domain(1 << degree_bits);
+            let q_native = trace_domain.create_disjoint_domain(1 << (degree_bits + log_chunks));
+            let doms_native = q_native.split_domains(n_chunks);
+            // circuit-side derivation (recursion/src/verifier/stark.rs)
+            let q_rec = g.rec_create_disjoint_domain(trace_domain, 1 << (degree_bits + log_chunks));
+            let doms = g.rec_split_domains(&q_rec, n_chunks);
+            let shape = format!("degree_bits={degree_bits},log_chunks={log_chunks},zk={is_zk},chunks={n_chunks}");
+            let srank = (degree_bits as u64) * 16 + log_chunks as u64;
+            let same = doms.len() == doms_native.len()
+                && doms.iter().zip(&doms_native).all(|(a, b)| a.shift() == b.shift() && a.log_size() == b.log_size());
+            if !same {
+                eng.violation(
+                    format!("quotient_domains.{}", G::KIND),
+                    srank,
+                    CaseId { field: fc.name.into(), gadget: format!("quotient_domains.{}", G::KIND), shape: shape.clone(), input: "-".into(), mode: "-".into() },
+                    format!("RecursivePcs::create_disjoint_domain/split_domains differ from the native quotient chunk domains for {shape}"),
+                    json!({}),
+                );
+                continue;
+            }
+            // inputs: zeta, then n_chunks × D chunk coordinates (extension elements)
+            let n_in = 1 + n_chunks * d;
+            let chunk_patterns: Vec<(&str, Vec<G::EF>)> = vec![
+                ("dense", ext_elems::<G::F, G::EF>(seed, n_chunks * d, 17)),
+                (
+                    "base",
+                    (0..n_chunks * d).map(|k| G::EF::from(G::F::from_u64(3 + 5 * k as u64))).collect(),
+                ),
+                (
+                    "last_only",
+                    (0..n_chunks * d)
+                        .map(|k| if k / d == n_chunks - 1 { G::EF::from(G::F::from_u64(2 + k as u64)) } else { G::EF::ZERO })
+                        .collect(),
+                ),
+            ];
+            let mk_inputs = |pts: Vec<(String, G::EF)>| -> Vec<(String, Vec<G::EF>)> {
+                let mut v = vec![];
+                for (pn, p) in &pts {
+                    for (cn, c) in &chunk_patterns {
+                        let mut x = vec![*p];
+                        x.extend_from_slice(c);
+                        v.push((format!("zeta={pn},chunks={cn}"), x));
+                    }
+                }
+                v
+            };
+            let build = |cb: &mut CircuitBuilder<G::EF>, ins: &[ExprId]| -> Result<Vec<ExprId>, String> {
+                let chunks: Vec<Vec<ExprId>> = ins[1..].chunks(d).map(|c| c.to_vec()).collect();
+                Ok(vec![g.recompose(cb, &doms, &chunks, ins[0])])
+            };
+            let native = |v: &[G::EF]| -> Vec<G::EF> {
+                let chunks: Vec<Vec<G::EF>> = v[1..].chunks(d).map(|c| c.to_vec()).collect();
+                vec![g.native_recompose(&doms_native, &chunks, v[0])]
+            };
+            // Candidate evaluation points; a point ON one of the chunk domains (necessarily a
+            // base-field element) is classified separately: the native function is defined there
+            // (it never divides by a vanishing value at zeta) while the gadget divides by Z_i(zeta).
+            let mut cands = base_points::<G::F, G::EF>(seed, fc.n_ext);
+            let h = doms_native[0].subgroup_generator();
+            cands.push(("chunk0_first".to_string(), G::EF::from(doms_native[0].shift())));
+            cands.push((
+                "chunklast_next".to_string(),
+                G::EF::from(doms_native[n_chunks - 1].shift() * h),
+            ));
+            let (on_dom, off_dom): (Vec<_>, Vec<_>) = cands.into_iter().partition(|(_, z)| {
+                doms_native.iter().any(|dm| dm.vanishing_poly_at_point(*z).is_zero())
+            });
+            eng.sweep::<G::F, G::EF>(
+                fc.name,
+                fc.rank,
+                &format!("quotient.{}", G::KIND),
+                &shape,
+                srank,
+                n_in,
+                &mk_inputs(off_dom),
+                &["quotient".into()],
+                &BOTH,
+                &build,
+                &native,
+            );
+            // Only with zeta as a circuit INPUT (as in every verifier circuit). With a constant
+            // zeta the builder folds `0/x -> 0` before the division exists, which is the subject
+            // of the builder properties (C02), not of this gadget.
+            eng.sweep::<G::F, G::EF>(
+                fc.name,
+                fc.rank,
+                &format!("quotient_zeta_on_chunk_domain.{}", G::KIND),
+                &shape,
+                srank,
+                n_in,
+                &mk_inputs(on_dom),
+                &["quotient".into()],
+                &[Mode::Pub],
+                &build,
+                &native,
+            );
+        }
+    }
+}
+
+/// The verifier places selectors, periodic columns and the quotient recomposition at the SAME
+/// zeta in one circuit (`recursion/src/verifier/stark.rs`), so the builder shares
+/// sub-expressions between them. This sweep builds that composition and checks every output.
+fn g_composite<G: PcsGadgets>(fc: &FieldCtx, g: &G) {
+    let eng = fc.eng;
+    let seed = eng.ctx.seed;
+    let is_zk = g.is_zk();
+    let d = <G::EF as BasedVectorSpace<G::F>>::DIMENSION;
+    let (dmin, dmax) = eng.bounds.quo_deg_bits;
+    for degree_bits in dmin.max(is_zk)..=dmax {
+        for log_chunks in 0..=eng.bounds.quo_max_log_chunks.min(2) {
+            let n_chunks = 1usize << (log_chunks + is_zk);
+            let trace_domain = g.native_natural_domain(1 << degree_bits);
+            let init_trace_domain = g.native_natural_domain((1 << degree_bits) >> is_zk);
+            let doms_native = trace_domain
+                .create_disjoint_domain(1 << (degree_bits + log_chunks))
+                .split_domains(n_chunks);
+            let q_rec = g.rec_create_disjoint_domain(trace_domain, 1 << (degree_bits + log_chunks));
+            let doms = g.rec_split_domains(&q_rec, n_chunks);
+            let log_n = init_trace_domain.log_size();
+            let cols: Vec<Vec<G::F>> = (0..=log_n.min(4))
+                .map(|lp| periodic_contents::<G::F>(1 << lp)[3].1.clone())
+                .collect();
+            let mut out_names: Vec<String> =
+                ["is_first_row", "is_last_row", "is_transition", "inv_vanishing", "quotient", "z_h(chunk0)"]
+                    .iter()
+                    .map(|s| s.to_string())
+                    .collect();
+            out_names.extend((0..cols.len()).map(|i| format!("periodic[period={}]", 1 << i)));
+            let n_in = 1 + n_chunks * d;
+            let chunk_vals = ext_elems::<G::F, G::EF>(seed, n_chunks * d, 23);
+            let inputs: Vec<(String, Vec<G::EF>)> = base_points::<G::F, G::EF>(seed, fc.n_ext)
+                .into_iter()
+                .filter(|(_, z)| !doms_native.iter().any(|dm| dm.vanishing_poly_at_point(*z).is_zero()))
+                .map(|(n, z)| {
+                    let mut x = vec![z];
+                    x.extend_from_slice(&chunk_vals);
+                    (format!("zeta={n}"), x)
+                })
+                .collect();
+            eng.sweep::<G::F, G::EF>(
+                fc.name,
+                fc.rank,
+                &format!("composite.{}", G::KIND),
+                &format!("degree_bits={degree_bits},log_chunks={log_chunks},zk={is_zk}"),
+                (degree_bits as u64) * 16 + log_chunks as u64,
+                n_in,
+                &inputs,
+                &out_names,
+                &BOTH,
+                &|cb, ins| {
+                    let chunks: Vec<Vec<ExprId>> = ins[1..].chunks(d).map(|c| c.to_vec()).collect();
+                    let q = g.recompose(cb, &doms, &chunks, ins[0]);
+                    let mut outs = g.selectors(cb, &init_trace_domain, ins[0]).to_vec();
+                    outs.push(q);
+                    outs.push(g.vanishing(cb, &doms[0], ins[0]));
+                    let per = verif_evaluate_periodic_columns_circuit::<G::F, G::EF>(
+                        cb,
+                        &init_trace_domain,
+                        &cols,
+                        ins[0],
+                    )
+                    .map_err(|e| format!("build error: {e:?}"))?;
+                    outs.extend(per);
+                    Ok(outs)
+                },
+                &|v| {
+                    let chunks: Vec<Vec<G::EF>> = v[1..].chunks(d).map(|c| c.to_vec()).collect();
+                    let s = init_trace_domain.selectors_at_point(v[0]);
+                    let mut o = vec![s.is_first_row, s.is_last_row, s.is_transition, s.inv_vanishing];
+                    o.push(g.native_recompose(&doms_native, &chunks, v[0]));
+                    o.push(doms_native[0].vanishing_poly_at_point(v[0]));
+                    o.extend(cols.iter().map(|c| init_trace_domain.evaluate_periodic_column_at(c, v[0])));
+                    o
+                },
+            );
+        }
+    }
+}
+
+fn periodic_contents<F: PrimeField64>(period: usize) -> Vec<(&'static str, Vec<F>)> {
+    vec![
+        ("lin", (0..period).map(|i| F::from_u64(11 * i as u64 + 3)).collect()),
+        ("onehot_last", (0..period).map(|i| F::from_bool(i == period - 1)).collect()),
+        ("const5", vec![F::from_u64(5); period]),
+        ("sq", (0..period).map(|i| F::from_u64(7_919 * (i * i) as u64 + 1)).collect()),
+        ("alt", (0..period).map(|i| F::from_bool(i % 2 == 1)).collect()),
+    ]
+}
+
+/// Periodic columns: all power-of-two periods ≤ domain size, several contents, evaluated
+/// (a) all columns of a domain in one gadget call, (b) each column on its own.
+fn g_periodic<F, EF>(fc: &FieldCtx)
+where
+    F: TwoAdicField + PrimeField64,
+    EF: ExtensionField<F> + Hash + Eq,
+{
+    let eng = fc.eng;
+    for log_n in 0..=eng.bounds.per_max_log {
+        for (sname, shift) in shifts::<F>(log_n).into_iter().take(2) {
+            let dom = Coset::<F>::new(shift, log_n).unwrap();
+            let pts = domain_points::<F, EF>(eng.ctx.seed, fc.n_ext, &dom);
+            let mut cols: Vec<Vec<F>> = vec![];
+            let mut names: Vec<String> = vec![];
+            for lp in 0..=log_n {
+                for (cn, c) in periodic_contents::<F>(1 << lp) {
+                    names.push(format!("period={},col={cn}", 1 << lp));
+                    cols.push(c);
+                }
+            }
+            let srank = (log_n as u64) * 4 + (sname == "g") as u64;
+            let shape = format!("log_n={log_n},shift={sname}");
+            eng.sweep::<F, EF>(
+                fc.name,
+                fc.rank,
+                "periodic.all_columns",
+                &shape,
+                srank,
+                1,
+                &pts,
+                &names,
+                &BOTH,
+                &|cb, ins| {
+                    verif_evaluate_periodic_columns_circuit::<F, EF>(cb, &dom, &cols, ins[0])
+                        .map_err(|e| format!("build error: gadget rejected valid periodic columns: {e:?}"))
+                },
+                &|v| cols.iter().map(|c| dom.evaluate_periodic_column_at(c, v[0])).collect(),
+            );
+            for (ci, col) in cols.iter().enumerate() {
+                let one = vec![col.clone()];
+                eng.sweep::<F, EF>(
+                    fc.name,
+                    fc.rank,
+                    "periodic.single_column",
+                    &format!("{shape},{}", names[ci]),
+                    srank * 64 + ci as u64,
+                    1,
+                    &pts,
+                    &["value".into()],
+                    &BOTH,
+                    &|cb, ins| {
+                        verif_evaluate_periodic_columns_circuit::<F, EF>(cb, &dom, &one, ins[0])
+                            .map_err(|e| format!("build error: gadget rejected a valid periodic column: {e:?}"))
+                    },
+                    &|v| vec![dom.evaluate_periodic_column_at(col, v[0])],
+                );
+            }
+            // invalid shapes are rejected at build time (recorded, not judged)
+            for bad in [3usize, (1 << log_n) * 2] {
+                let c = vec![vec![F::ONE; bad]];
+                let r = quiet_catch(|| {
+                    let mut cb = CircuitBuilder::<EF>::new();
+                    let z = cb.public_input();
+                    verif_evaluate_periodic_columns_circuit::<F, EF>(&mut cb, &dom, &c, z).is_err()
+                });
+                if bad.is_power_of_two() && bad <= (1 << log_n) {
+                    continue;
+                }
+                eng.histo.add(&format!(
+                    "periodic: invalid column length {}",
+                    match r {
+                        Ok(true) => "rejected with Err",
+                        Ok(false) => "ACCEPTED",
+                        Err(_) => "panicked",
+                    }
+                ));
+            }
+        }
+    }
+}
+
+/// `evaluate_polynomial` (Horner over coefficient targets) vs `HornerIter::horner`.
+fn g_eval_poly<F, EF>(fc: &FieldCtx)
+where
+    F: TwoAdicField + PrimeField64,
+    EF: ExtensionField<F> + Hash + Eq,
+{
+    let eng = fc.eng;
+    let seed = eng.ctx.seed;
+    for len in 1..=eng.bounds.poly_max_len {
+        let patterns: Vec<(&str, Vec<EF>)> = vec![
+            ("dense", ext_elems::<F, EF>(seed, len, 5)),
+            ("base", (0..len).map(|k| EF::from(F::from_u64(2 + 3 * k as u64))).collect()),
+            ("lead0", {
+                let mut c = ext_elems::<F, EF>(seed, len, 9);
+                *c.last_mut().unwrap() = EF::ZERO;
+                c
+            }),
+            ("const0_only_top", {
+                let mut c = vec![EF::ZERO; len];
+                *c.last_mut().unwrap() = EF::from(F::from_u64(9));
+                c
+            }),
+        ];
+        let mut inputs = vec![];
+        for (pn, p) in base_points::<F, EF>(seed, fc.n_ext) {
+            for (cn, c) in &patterns {
+                let mut x = vec![p];
+                x.extend_from_slice(c);
+                inputs.push((format!("x={pn},coeffs={cn}"), x));
+            }
+        }
+        eng.sweep::<F, EF>(
+            fc.name,
+            fc.rank,
+            "evaluate_polynomial",
+            &format!("len={len}"),
+            len as u64,
+            1 + len,
+            &inputs,
+            &["p(x)".into()],
+            &BOTH,
+            &|cb, ins| Ok(vec![hooks::evaluate_polynomial(cb, &ins[1..], ins[0])]),
+            &|v| {
+                // p3_fri::verifier: `proof.final_poly.iter().copied().horner(x)`
+                let a: EF = v[1..].iter().copied().horner(v[0]);
+                // cross-check of the reference: plain power sum
+                let mut b = EF::ZERO;
+                let mut xp = EF::ONE;
+                for c in &v[1..] {
+                    b += *c * xp;
+                    xp *= v[0];
+                }
+                if a != b {
+                    vpcore::machinery_error("reference self-check failed: horner != power sum");
+                }
+                vec![a]
+            },
+        );
+    }
+    // length 0 is rejected by an assert (documented precondition) — recorded, not judged
+    if eng.filter.is_none() {
+        let r = quiet_catch(|| {
+            let mut cb = CircuitBuilder::<EF>::new();
+            let x = cb.public_input();
+            hooks::evaluate_polynomial(&mut cb, &[], x)
+        });
+        eng.histo.add(&format!(
+            "evaluate_polynomial: len=0 {}",
+            if r.is_err() { "rejected (assert)" } else { "accepted" }
+        ));
+    }
+}
+
+fn exponents(b: &Bounds) -> Vec<usize> {
+    let mut v: Vec<usize> = (1..=b.exp_dense).collect();
+    for k in 0..=b.exp_max_k {
+        let p = 1usize << k;
+        v.extend([p.saturating_sub(1), p, p + 1]);
+    }
+    v.retain(|&n| n >= 1); // n = 0 violates the gadget's documented debug_assert precondition
+    v.sort_unstable();
+    v.dedup();
+    v
+}
+
+/// `circuit_exp_by_constant` vs `exp_u64`.
+fn g_exp_const<F, EF>(fc: &FieldCtx)
+where
+    F: TwoAdicField + PrimeField64,
+    EF: ExtensionField<F> + Hash + Eq,
+{
+    let eng = fc.eng;
+    let mut bases = base_points::<F, EF>(eng.ctx.seed, fc.n_ext);
+    bases.push(("minus_one".into(), EF::NEG_ONE));
+    let inputs: Vec<(String, Vec<EF>)> = bases.into_iter().map(|(n, p)| (format!("base={n}"), vec![p])).collect();
+    let exps = exponents(&eng.bounds);
+    exps.par_iter().enumerate().for_each(|(i, &n)| {
+        eng.sweep::<F, EF>(
+            fc.name,
+            fc.rank,
+            "circuit_exp_by_constant",
+            &format!("n={n}"),
+            i as u64,
+            1,
+            &inputs,
+            &["base^n".into()],
+            &BOTH,
+            &|cb, ins| Ok(vec![hooks::circuit_exp_by_constant(cb, ins[0], n)]),
+            &|v| vec![v[0].exp_u64(n as u64)],
+        );
+    });
+}
+
+fn index_inputs<EF: Field>(log: usize) -> Vec<(String, Vec<EF>)> {
+    (0..1usize << log)
+        .map(|idx| {
+            (
+                format!("index={idx}"),
+                (0..log).map(|i| EF::from_bool((idx >> i) & 1 == 1)).collect(),
+            )
+        })
+        .collect()
+}
+
+fn index_of<EF: Field>(bits: &[EF]) -> usize {
+    bits.iter().enumerate().map(|(i, b)| (b.is_one() as usize) << i).sum()
+}
+
+/// `compute_final_query_point` vs `p3_fri::verifier::verify_fri`:
+/// `x = two_adic_generator(L)^reverse_bits_len(index >> consumed, L)`.
+fn g_final_query_point<F, EF>(fc: &FieldCtx)
+where
+    F: TwoAdicField + PrimeField64,
+    EF: ExtensionField<F> + Hash + Eq,
+{
+    let eng = fc.eng;
+    let shapes: Vec<(usize, usize)> = (1..=eng.bounds.fqp_max_log)
+        .flat_map(|l| (0..=l).map(move |c| (l, c)))
+        .collect();
+    shapes.par_iter().for_each(|&(log_max, consumed)| {
+        let inputs = index_inputs::<EF>(log_max);
+        let modes: &[Mode] = if log_max <= eng.bounds.fqp_max_log_const { &BOTH } else { &[Mode::Pub] };
+        eng.sweep::<F, EF>(
+            fc.name,
+            fc.rank,
+            "compute_final_query_point",
+            &format!("log_max_height={log_max},bits_consumed={consumed}"),
+            (log_max as u64) * 64 + consumed as u64,
+            log_max,
+            &inputs,
+            &["x_final".into()],
+            modes,
+            &|cb, ins| {
+                // verify_fri_circuit: precompute_two_adic_powers(builder, log_max_height)
+                let g = F::two_adic_generator(log_max);
+                let powers: Vec<ExprId> = core::iter::successors(Some(g), |p| Some(p.square()))
+                    .take(log_max)
+                    .map(|p| cb.define_const(EF::from(p)))
+                    .collect();
+                Ok(vec![hooks::compute_final_query_point::<F, EF>(cb, ins, log_max, consumed, &powers)])
+            },
+            &|bits| {
+                let index = index_of(bits);
+                let domain_index = index >> consumed; // `*start_index >>= log_arity` per phase
+                let x = F::two_adic_generator(log_max)
+                    .exp_u64(reverse_bits_len(domain_index, log_max) as u64);
+                // reference self-check: folding squares the initial point `consumed` times
+                let x0 = F::two_adic_generator(log_max).exp_u64(reverse_bits_len(index, log_max) as u64);
+                if x0.exp_power_of_2(consumed) != x {
+                    vpcore::machinery_error("reference self-check failed: final query point");
+                }
+                vec![EF::from(x)]
+            },
+        );
+    });
+}
+
+/// `precompute_evaluation_points` vs `p3_fri::verifier::open_input`:
+/// `x_h = GENERATOR · two_adic_generator(h)^reverse_bits_len(index >> (L−h), h)` per height.
+fn g_eval_points<F, EF>(fc: &FieldCtx)
+where
+    F: TwoAdicField + PrimeField64,
+    EF: ExtensionField<F> + Hash + Eq,
+{
+    let eng = fc.eng;
+    let mut shapes: Vec<(usize, u32)> = vec![];
+    for l in 1..=eng.bounds.evp_max_log {
+        for mask in 1u32..(1 << l) {
+            shapes.push((l, mask));
+        }
+    }
+    shapes.par_iter().for_each(|&(log_global, mask)| {
+        // heights 1..=log_global selected by mask, descending
+        let heights: Vec<usize> = (1..=log_global).rev().filter(|h| mask >> (h - 1) & 1 == 1).collect();
+        let inputs = index_inputs::<EF>(log_global);
+        let modes: &[Mode] = if log_global <= eng.bounds.evp_max_log_const { &BOTH } else { &[Mode::Pub] };
+        eng.sweep::<F, EF>(
+            fc.name,
+            fc.rank,
+            "precompute_evaluation_points",
+            &format!("log_global_max_height={log_global},heights={heights:?}"),
+            (log_global as u64) * 1024 + mask as u64,
+            log_global,
+            &inputs,
+            &heights.iter().map(|h| format!("x[h={h}]")).collect::<Vec<_>>(),
+            modes,
+            &|cb, ins| {
+                let m = hooks::precompute_evaluation_points::<F, EF>(cb, &heights, ins, log_global);
+                if m.len() != heights.len() {
+                    return Err(format!("build error: returned heights {:?}, requested {heights:?}", m.keys().collect::<Vec<_>>()));
+                }
+                heights
+                    .iter()
+                    .map(|h| m.get(h).copied().ok_or_else(|| format!("build error: no evaluation point for height {h}")))
+                    .collect()
+            },
+            &|bits| {
+                let index = index_of(bits);
+                heights
+                    .iter()
+                    .map(|&h| {
+                        let bits_reduced = log_global - h;
+                        let rev = reverse_bits_len(index >> bits_reduced, h);
+                        let x = F::GENERATOR * F::two_adic_generator(h).exp_u64(rev as u64);
+                        // reference self-check: x is the rev-th element of the coset GENERATOR·<ω_h>
+                        let mut c = Coset::<F>::new(F::GENERATOR, h).unwrap();
+                        if c.element(rev) != x {
+                            vpcore::machinery_error("reference self-check failed: evaluation point");
+                        }
+                        EF::from(x)
+                    })
+                    .collect()
+            },
+        );
+    });
+}
+
+/// Builder primitives the gadgets above are made of.
+fn g_primitives<F, EF>(fc: &FieldCtx)
+where
+    F: TwoAdicField + PrimeField64,
+    EF: ExtensionField<F> + Hash + Eq,
+{
+    let eng = fc.eng;
+    let seed = eng.ctx.seed;
+    let mut bases = base_points::<F, EF>(seed, fc.n_ext);
+    bases.push(("minus_one".into(), EF::NEG_ONE));
+    let one_in: Vec<(String, Vec<EF>)> = bases.iter().map(|(n, p)| (format!("base={n}"), vec![*p])).collect();
+    for k in 0..=eng.bounds.pow2_max {
+        eng.sweep::<F, EF>(
+            fc.name,
+            fc.rank,
+            "exp_power_of_2",
+            &format!("power_log={k}"),
+            k as u64,
+            1,
+            &one_in,
+            &["base^(2^k)".into()],
+            &BOTH,
+            &|cb, ins| Ok(vec![cb.exp_power_of_2(ins[0], k)]),
+            &|v| vec![v[0].exp_power_of_2(k)],
+        );
+    }
+    // select(b, t, s) for boolean b
+    let vals = base_points::<F, EF>(seed, 2);
+    let mut sel_in = vec![];
+    for b in [false, true] {
+        for (tn, t) in &vals {
+            for (sn, s) in &vals {
+                sel_in.push((format!("b={},t={tn},s={sn}", b as u8), vec![EF::from_bool(b), *t, *s]));
+            }
+        }
+    }
+    eng.sweep::<F, EF>(
+        fc.name,
+        fc.rank,
+        "select",
+        "b,t,s",
+        0,
+        3,
+        &sel_in,
+        &["select".into()],
+        &BOTH,
+        &|cb, ins| Ok(vec![cb.select(ins[0], ins[1], ins[2])]),
+        &|v| vec![if v[0].is_one() { v[1] } else { v[2] }],
+    );
+    // reconstruct_index_from_bits: all indices for short lengths; single-bit / all-ones for long
+    let max_long = (F::bits() - 1).min(40);
+    for n in 0..=max_long {
+        let inputs: Vec<(String, Vec<EF>)> = if n <= eng.bounds.bits_exhaustive {
+            index_inputs::<EF>(n)
+        } else {
+            let mut v = vec![];
+            let all = (1u64 << n) - 1;
+            for (nm, idx) in [("top_bit", 1u64 << (n - 1)), ("all_ones", all), ("alternating", all / 3)] {
+                v.push((
+                    format!("index={nm}"),
+                    (0..n).map(|i| EF::from_bool((idx >> i) & 1 == 1)).collect(),
+                ));
+            }
+            v
+        };
+        eng.sweep::<F, EF>(
+            fc.name,
+            fc.rank,
+            "reconstruct_index_from_bits",
+            &format!("n_bits={n}"),
+            n as u64,
+            n,
+            &inputs,
+            &["index".into()],
+            &BOTH,
+            &|cb, ins| {
+                cb.reconstruct_index_from_bits::<F>(ins)
+                    .map(|t| vec![t])
+                    .map_err(|e| format!("build error: {e:?}"))
+            },
+            &|bits| {
+                let idx: u64 = bits.iter().enumerate().map(|(i, b)| (b.is_one() as u64) << i).sum();
+                vec![EF::from(F::from_u64(idx))]
+            },
+        );
+    }
+}
+
+// ---------------------------------------------------------------------------------------
+
+fn run_field<F, EF, GT, GH>(eng: &Eng, name: &'static str, rank: u64, mk_t: fn() -> GT, mk_h: fn() -> GH)
+where
+    F: TwoAdicField + PrimeField64,
+    EF: ExtensionField<F> + Hash + Eq,
+    GT: PcsGadgets<F = F, EF = EF>,
+    GH: PcsGadgets<F = F, EF = EF>,
+{
+    let n_ext = eng.bounds.n_ext;
+    let fc = FieldCtx { eng, name, rank, n_ext };
+    let fc = &fc;
+    // independent task groups; the PCS objects (not `Sync`) are built inside the task using them
+    vpcore::rayon::scope(|s| {
+        s.spawn(move |_| g_selectors(fc, &mk_t()));
+        s.spawn(move |_| g_selectors(fc, &mk_h()));
+        s.spawn(move |_| g_quotient(fc, &mk_t()));
+        s.spawn(move |_| g_quotient(fc, &mk_h()));
+        s.spawn(move |_| g_composite(fc, &mk_t()));
+        s.spawn(move |_| g_composite(fc, &mk_h()));
+        s.spawn(move |_| g_periodic::<F, EF>(fc));
+        s.spawn(move |_| g_eval_poly::<F, EF>(fc));
+        s.spawn(move |_| g_exp_const::<F, EF>(fc));
+        s.spawn(move |_| g_final_query_point::<F, EF>(fc));
+        s.spawn(move |_| g_eval_points::<F, EF>(fc));
+        s.spawn(move |_| g_primitives::<F, EF>(fc));
+    });
+}
+
+fn run_all(eng: &Eng, ctx: &Ctx) {
+    let only = ctx.opt("field").map(|s| s.to_string());
+    let want = |f: &str| only.as_deref().map(|o| o == f).unwrap_or(true);
+    let e = eng;
+    vpcore::rayon::scope(|s| {
+        if want("babybear_d4") {
+            s.spawn(move |_| {
+                use p3_test_utils::baby_bear_params as m;
+                run_field::<m::F, m::Challenge, _, _>(e, "babybear_d4", 0, pcs::bb_twoadic, pcs::bb_hiding)
+            });
+        }
+        if want("koalabear_d4") {
+            s.spawn(move |_| {
+                use p3_test_utils::koala_bear_params as m;
+                run_field::<m::F, m::Challenge, _, _>(e, "koalabear_d4", 1, pcs::kb_twoadic, pcs::kb_hiding)
+            });
+        }
+        if want("goldilocks_d2") {
+            s.spawn(move |_| {
+                use p3_test_utils::goldilocks_params as m;
+                run_field::<m::F, m::Challenge, _, _>(e, "goldilocks_d2", 2, pcs::gl_twoadic, pcs::gl_hiding)
+            });
+        }
+    });
+
+}
+
 fn main() {
-    eprintln!("MACHINERY-ERROR: check c20 not built yet");
-    std::process::exit(2);
+    vpcore::install_quiet_panic_hook();
+    let ctx = Ctx::from_args("C20", "exploration");
+
+    let mut filter = None;
+    let mut quick = ctx.quick();
+    if let Some(path) = &ctx.replay {
+        let r = vpcore::load_replay(path);
+        let c: CaseId = vpcore::serde_json::from_value(r["case"].clone())
+            .unwrap_or_else(|e| vpcore::machinery_error(&format!("bad replay: {e}")));
+        if let Some(t) = r["tier"].as_str() {
+            quick = t == "quick";
+        }
+        println!("replaying {}", c.show());
+        filter = Some(c);
+    }
+    let bounds = Bounds::for_tier(quick);
+    let eng = Eng::new(&ctx, bounds.clone(), filter);
+
+    // Watchdog: a gadget that runs away on a valid input (unbounded loop / memory) must not
+    // take the machine down. Memory blow-up (load independent) is a verdict; exceeding the
+    // time budget is a machinery error. Both name the sweeps in flight. On the unchanged tree a
+    // whole tier needs < 100 MB and a few seconds.
+    let done = AtomicBool::new(false);
+    std::thread::scope(|ts| {
+        let (eng_ref, done_ref, ctx_ref) = (&eng, &done, &ctx);
+        ts.spawn(move || {
+            while !done_ref.load(Ordering::Relaxed) {
+                std::thread::sleep(std::time::Duration::from_millis(100));
+                let rss_mb = std::fs::read_to_string("/proc/self/statm")
+                    .ok()
+                    .and_then(|t| t.split_whitespace().nth(1).and_then(|x| x.parse::<u64>().ok()))
+                    .map(|pages| pages * 4096 / (1 << 20))
+                    .unwrap_or(0);
+                let fl: Vec<String> = eng_ref.in_flight.lock().unwrap().iter().cloned().collect();
+                if rss_mb > 4096 {
+                    // > 100x the memory of a whole tier on the unchanged tree: independent of
+                    // machine load, some gadget does not produce its circuit on a valid input
+                    eng_ref.timed_out.store(true, Ordering::Relaxed);
+                    let gadgets: std::collections::BTreeSet<String> = fl
+                        .iter()
+                        .map(|f| f.split('[').next().unwrap_or("").split(':').nth(1).unwrap_or("").to_string())
+                        .collect();
+                    conclude(
+                        eng_ref,
+                        ctx_ref,
+                        quick,
+                        Some((
+                            format!("resource_blowup|{gadgets:?}"),
+                            format!("building/running a gadget on a valid input exceeded 4 GB (a whole tier needs < 100 MB): no value is returned where the native function returns one; sweeps in flight: {fl:?}"),
+                        )),
+                    );
+                }
+                if ctx_ref.used() > 1.5 {
+                    vpcore::machinery_error(&format!(
+                        "watchdog: 1.5x budget exceeded ({:.0}s) — a gadget build/run does not terminate; sweeps in flight: {fl:?}",
+                        ctx_ref.elapsed_s()
+                    ));
+                }
+            }
+        });
+        run_all(&eng, &ctx);
+        done.store(true, Ordering::Relaxed);
+    });
+
+    conclude(&eng, &ctx, quick, None)
+}
+
+/// Turns the collected violating groups into verdicts, writes the evidence and exits.
+/// `blowup` carries the watchdog's resource blow-up verdict (see `main`).
+fn conclude(eng: &Eng, ctx: &Ctx, quick: bool, blowup: Option<(String, String)>) -> ! {
+    let report = Report::new();
+    let bounds = eng.bounds.clone();
+    if let Some((key, what)) = blowup {
+        report.violation(key, what, json!({"tier": if quick { "quick" } else { "thorough" }}));
+    }
+    let only = ctx.opt("field").map(|s| s.to_string());
+    let want = |f: &str| only.as_deref().map(|o| o == f).unwrap_or(true);
+
+    // ---- verdicts
+    for (group, p) in eng.viol.lock().unwrap().iter() {
+        // The zeta-on-chunk-domain class is keyed by the class alone (its minimal case depends
+        // on the tier's degree range); every other key carries the minimal violating case.
+        let key = if group.starts_with("quotient_zeta_on_chunk_domain.") {
+            format!("{group}|*")
+        } else {
+            format!("{group}|{}", p.case.show())
+        };
+        report.violation(
+            key,
+            format!("{} ({} violating cases in this group)", p.what, p.count),
+            json!({"case": p.case, "tier": if quick { "quick" } else { "thorough" }, "detail": p.detail}),
+        );
+    }
+
+    // ---- coverage
+    let gs = eng.gstats.lock().unwrap();
+    let mut tot = GStat::default();
+    let mut per = BTreeMap::new();
+    for (k, s) in gs.iter() {
+        tot.cases += s.cases;
+        tot.builds += s.builds;
+        tot.runs += s.runs;
+        tot.outputs_compared += s.outputs_compared;
+        tot.native_undefined += s.native_undefined;
+        tot.nontrivial_outputs += s.nontrivial_outputs;
+        per.insert(
+            k.clone(),
+            json!({"cases": s.cases, "circuits_built": s.builds, "runs": s.runs, "outputs_compared": s.outputs_compared,
+                   "native_undefined_skipped": s.native_undefined, "nontrivial_outputs": s.nontrivial_outputs}),
+        );
+    }
+    let exhaustive = !eng.timed_out.load(Ordering::Relaxed) && only.is_none() && eng.filter.is_none();
+    let samples: Vec<Value> = eng.samples.lock().unwrap().values().cloned().collect();
+    let distinct = eng.distinct.lock().unwrap().len();
+    eprintln!(
+        "cases={} builds={} runs={} outputs_compared={} native_undefined={} distinct_nontrivial={} exhaustive={} t={:.1}s",
+        tot.cases, tot.builds, tot.runs, tot.outputs_compared, tot.native_undefined, distinct, exhaustive, ctx.elapsed_s()
+    );
+    let fields_run: Vec<&str> = ["babybear_d4", "koalabear_d4", "goldilocks_d2"]
+        .into_iter()
+        .filter(|f| want(f))
+        .collect();
+    let cov = json!({
+        "evaluations": tot.cases,
+        "distinct_nontrivial": distinct,
+        "rule": "a case = (field, gadget, structural parameters, input vector, input mode); every case builds the real gadget into a circuit, runs it with the real runner and compares every output target with the native Plonky3 value. distinct_nontrivial counts DISTINCT (gadget, native output value) pairs among the compared-and-equal outputs whose value is neither 0 nor 1 (measured with a hash set)",
+        "samples": if samples.is_empty() { vec![json!("no non-trivial case in this (filtered) run")] } else { samples },
+        "exhaustive": exhaustive,
+        "bounds": bounds,
+        "fields": fields_run,
+        "circuits_built": tot.builds,
+        "circuit_runs": tot.runs,
+        "outputs_compared": tot.outputs_compared,
+        "nontrivial_outputs_compared": tot.nontrivial_outputs,
+        "native_undefined_skipped": tot.native_undefined,
+        "sweeps_skipped_out_of_time": eng.skipped_sweeps.load(Ordering::Relaxed),
+        "per_field_gadget": per,
+        "outcome_histogram": eng.histo.to_json(),
+        "replay": eng.filter.is_some(),
+    });
+    drop(gs);
+    finish(
+        &ctx,
+        cov,
+        vec![
+            "the native Plonky3 0.6 functions (PolynomialSpace::{selectors_at_point, vanishing_poly_at_point, evaluate_periodic_column_at}, p3_uni_stark::recompose_quotient_from_chunks, exp_u64, horner) are the specification".into(),
+            "index→point formulas of p3_fri::verifier (final query point, per-height evaluation point) are replicated literally and self-checked against an independent formulation on every case".into(),
+            "inputs on which the native function panics (points of the domain for the selectors, 0 for barycentric interpolation) are outside the contract and skipped".into(),
+            "points range over 3 generic extension elements, 0, 1, a small base element and domain elements; structural parameters are exhaustive within the stated bounds".into(),
+        ],
+        &report,
+    )
 }
